@@ -8,6 +8,7 @@ import (
 	"time"
 
 	"github.com/kardiachain/go-kardia/configs"
+	"github.com/kardiachain/go-kardia/kai/events"
 	"github.com/kardiachain/go-kardia/lib/common"
 	"github.com/kardiachain/go-kardia/mainchain/tx_pool"
 	"github.com/kardiachain/go-kardia/types"
@@ -109,5 +110,53 @@ func TestDirected(t *testing.T) {
 		gone := pool.Get(victim.Hash()) == nil
 		t.Logf("underpriced replacement into a full pool (%d+%d): err=%v, afterwards %d+%d, unrelated cheapest tx gone=%v", p0, q0, err, p1, q1, gone)
 		ev.KnownReproduced("reject.replace-underpriced.evicts-others", err == tx_pool.ErrReplaceUnderpriced && gone && p0+q0 == 8 && p1+q1 == 7)
+	}()
+
+	// --- observation, NOT a finding of C17 (the property statement does not promise promotion): a reorg run that
+	// carries a head reset promotes with the virtual nonces it has just reset to the state nonces, so a transaction
+	// enqueued just before such a run is not promoted although it is executable. Made deterministic by holding the
+	// previous run open with an unread NewTxsEvent subscription (public API). This is why TestPoolAsync judges
+	// "nothing executable stays queued" only in rounds without head events.
+	func() {
+		pool, ch, _ := directPool(t, directCfg())
+		defer pool.Stop()
+		evs := make(chan events.NewTxsEvent)
+		sub := pool.SubscribeNewTxsEvent(evs)
+		defer sub.Unsubscribe()
+		tx0, tx1 := plainTx(3, 0, 1, 0), plainTx(3, 1, 1, 0)
+		hashes := []common.Hash{tx0.Hash(), tx1.Hash()}
+		pool.AddRemotes([]*types.Transaction{tx0}) // run 1 promotes tx0 and then blocks announcing it
+		ok := false
+		for i := 0; i < 20000 && !ok; i++ {
+			if ok = pool.Status(hashes)[0] == tx_pool.TxStatusPending; !ok {
+				time.Sleep(100 * time.Microsecond)
+			}
+		}
+		if !ok {
+			t.Logf("observation skipped: first transaction not promoted within the bound")
+			return
+		}
+		pool.AddRemotes([]*types.Transaction{tx1}) // enqueued; its promotion request waits for run 2
+		old := ch.CurrentBlock()
+		head := headModel{gasLimit: 1000000}
+		for i := range accts {
+			head.bal[i] = big.NewInt(1000000000000)
+		}
+		nb := ch.push(head) // same account state, next height
+		done := pool.VerifC17RequestReset(old.Header(), nb.Header())
+		go func() {
+			for {
+				select {
+				case <-evs:
+				case <-done:
+					return
+				}
+			}
+		}()
+		<-done
+		st := pool.Status(hashes)
+		stuck := st[0] == tx_pool.TxStatusPending && st[1] == tx_pool.TxStatusQueued && pool.Nonce(accts[3].addr) == 1
+		t.Logf("observation: tx nonce 1 enqueued before a reorg run that merged a head reset: status %v, Nonce()=%d -> executable but left queued: %v", st, pool.Nonce(accts[3].addr), stuck)
+		ev.Note("observation_promotion_skipped_by_merged_reset", stuck)
 	}()
 }
